@@ -71,6 +71,11 @@ Proof. reflexivity. Qed.
 Theorem default_memo_keyed_by_reading_and_text : gen_default_memo_per_reading = true.
 Proof. reflexivity. Qed.
 
+(* F31: the map that absent struct / map / slice values are filled from is not a package-level
+   one that a map[string]any field would receive *)
+Theorem empty_map_not_handed_out : gen_empty_map_private = true.
+Proof. reflexivity. Qed.
+
 (* httpx.Parse: path, form, headers, body — the order of the passes of a call in Check.v — then the validator *)
 Theorem parse_order_is_path_form_header_body :
   gen_parse_order = ["ParsePath"; "ParseForm"; "ParseHeaders"; "ParseJsonBody"] /\ gen_validator_after_passes = true.
